@@ -60,6 +60,9 @@ const FAULTS: &[(&str, bool)] = &[
     ("exit1-no-read-x6", true),
     ("kill-before-read-x6", true),
     ("real-with-RUSTFMT-env", true),
+    ("real-with-RUSTFMT-env-empty", true),
+    ("real-with-RUSTFMT-env-blank", true),
+    ("real-with-RUSTFMT-env-args", true),
     ("truncated-ok", false),
     ("garbage-ok", false),
     ("invalid-utf8-ok", true),
@@ -280,7 +283,8 @@ fn stub_script(fault: &str, real: &str, cat: &str, head: &str, sleep: &str) -> O
         "truncated-ok" => format!("{real} \"$@\" | {head} -c 100\nexit 0\n"),
         "garbage-ok" => format!("{cat} >/dev/null\nprintf 'fn ('\nexit 0\n"),
         "invalid-utf8-ok" => format!("{cat} >/dev/null\nprintf '\\377\\376'\nexit 0\n"),
-        "real" | "real-with-RUSTFMT-env" => format!("exec {real} \"$@\"\n"),
+        "real" => format!("exec {real} \"$@\"\n"),
+        f if f.starts_with("real-with-RUSTFMT-env") => format!("exec {real} \"$@\"\n"),
         other => panic!("unknown fault {other}"),
     };
     Some(format!("#!/bin/sh\n{body}"))
@@ -335,7 +339,15 @@ fn run_child(path_env: &str, fault: &str, file: &str, index: usize, timeout: Dur
         .args(["--child", fault, file, &index.to_string()])
         .env("PATH", path_env)
         .env("FAULTS_REPEAT", if fault.ends_with("-x6") { "6" } else { "1" })
-        .env("RUSTFMT", if fault == "real-with-RUSTFMT-env" { format!("{}/garbage_formatter", path_env.split(':').next().unwrap_or("")) } else { String::new() })
+        // the variable `cargo fmt` / bindgen honour: pointing at a formatter that prints garbage, empty, blank, or a command with
+        // arguments that would change the formatting; the generator's formatter is `rustfmt` on PATH whatever it says
+        .env("FAULTS_RUSTFMT", match fault {
+            "real-with-RUSTFMT-env" => format!("value:{}/garbage_formatter", path_env.split(':').next().unwrap_or("")),
+            "real-with-RUSTFMT-env-empty" => "value:".to_string(),
+            "real-with-RUSTFMT-env-blank" => "value:   ".to_string(),
+            "real-with-RUSTFMT-env-args" => "value:rustfmt --config hard_tabs=true,max_width=40".to_string(),
+            _ => "unset".to_string(),
+        })
         .stdin(Stdio::null())
         .stdout(Stdio::piped())
         .stderr(Stdio::null())
@@ -423,8 +435,9 @@ fn child_main(file: &str, index: usize) {
     let cases = read_cases(file);
     let (_, src) = &cases[index];
     let wo = wgsl_to_wgpu::WriteOptions { rustfmt: true, ..Default::default() };
-    if std::env::var("RUSTFMT").map(|v| v.is_empty()).unwrap_or(false) {
-        std::env::remove_var("RUSTFMT");
+    match std::env::var("FAULTS_RUSTFMT").ok().as_deref().and_then(|v| v.strip_prefix("value:")) {
+        Some(v) => std::env::set_var("RUSTFMT", v),
+        None => std::env::remove_var("RUSTFMT"),
     }
     let repeat: usize = std::env::var("FAULTS_REPEAT").ok().and_then(|v| v.parse().ok()).unwrap_or(1);
     let mut r = catch_unwind(AssertUnwindSafe(|| wgsl_to_wgpu::create_shader_module_embedded(src, wo)));
